@@ -37,6 +37,8 @@ func parsePolicy(s string) []wpol {
 			out = append(out, wpol{atoi(e[1:]), "hard"})
 		case 'c':
 			out = append(out, wpol{atoi(e[1:]), "closed"})
+		case 'g':
+			out = append(out, wpol{0, "gate"})
 		default:
 			panic("harness: bad policy " + e)
 		}
